@@ -11,6 +11,11 @@ Theorem lifecycle_source_shape : gc_life_shape = true.
 Proof. exact source_shape_ok. Qed.
 Print Assumptions lifecycle_source_shape.
 
+(* both halves of the D18 repair are present in the C text *)
+Theorem lifecycle_repair_present : gc_rem_pending_finalises = true /\ gc_sweep_nulls_first = true.
+Proof. exact (conj eq_refl eq_refl). Qed.
+Print Assumptions lifecycle_repair_present.
+
 (* for every history — any interleaving of new/new_root/new_raw, del/del_root/del_raw, ownership
    links, forced and threshold collections with any slot order and any marks, stop/start, teardown
    — no destructor runs twice and memory is released exactly as often as the destructor ran *)
@@ -18,7 +23,7 @@ Theorem lifecycle_finalised_at_most_once :
   forall (h : list ev) (x : nat),
     let s := run gc_rem_pending_finalises gc_sweep_nulls_first h in
     fin_count s x <= 1 /\ free_count s x = fin_count s x.
-Proof. exact finalised_at_most_once. Qed.
+Proof. exact (finalised_at_most_once_sw _ _ eq_refl eq_refl). Qed.
 Print Assumptions lifecycle_finalised_at_most_once.
 
 (* the nested destructor calls through owning Boxes never exhaust the fuel of the model, and no
@@ -27,7 +32,7 @@ Theorem lifecycle_fuel_adequate :
   forall h : list ev,
     let s := run gc_rem_pending_finalises gc_sweep_nulls_first h in
     oof s = false /\ pend s = [].
-Proof. exact fuel_adequate. Qed.
+Proof. exact (fuel_adequate_sw _ _ eq_refl eq_refl). Qed.
 Print Assumptions lifecycle_fuel_adequate.
 
 (* del / del_root with the collector running, and del_raw always, finalise the object exactly
@@ -40,7 +45,7 @@ Theorem lifecycle_explicit_delete_finalises :
     (k = KRaw \/ running s = true) ->
     let s' := run gc_rem_pending_finalises gc_sweep_nulls_first (h ++ [EDel k o]) in
     fin_count s' o = 1 /\ free_count s' o = 1.
-Proof. exact explicit_delete_finalises. Qed.
+Proof. exact (explicit_delete_finalises_sw _ _ eq_refl eq_refl). Qed.
 Print Assumptions lifecycle_explicit_delete_finalises.
 
 (* after teardown (thread exit / Cello_Exit) every managed object ever allocated has been
@@ -52,7 +57,7 @@ Theorem lifecycle_teardown_complete :
     torn s = false -> info s x = Some (KManaged, b) ->
     let s' := run gc_rem_pending_finalises gc_sweep_nulls_first (h ++ [ETeardown order]) in
     fin_count s' x = 1 /\ free_count s' x = 1.
-Proof. exact teardown_complete. Qed.
+Proof. exact (teardown_complete_sw _ _ eq_refl eq_refl). Qed.
 Print Assumptions lifecycle_teardown_complete.
 
 (* non-vacuity of the hypotheses of the two theorems above *)
